@@ -28,7 +28,7 @@ def main():
         dst = os.path.join(ROOT, "seeded", mid)
         os.makedirs(dst, exist_ok=True)
         for fn in ("patch.diff", "demo.py", "notes.md"):
-            if os.path.exists(os.path.join(src, fn)):
+            if os.path.exists(os.path.join(src, fn)) and os.path.abspath(src) != os.path.abspath(dst):
                 shutil.copy(os.path.join(src, fn), os.path.join(dst, fn))
         notes = open(os.path.join(src, "notes.md")).read() if os.path.exists(os.path.join(src, "notes.md")) else ""
         meta = {
